@@ -834,6 +834,28 @@ func (e *Env) call(x *Expr) Val {
 			fail("ints(): element kind %s is not an integer heap", k)
 		}
 		return Val{T: "(ints " + e.g.heap(e.cur, k) + " " + b.T + ")", Sort: "(Seq Int)"}
+	case "visited":
+		// visited(n, k): key k has been produced by the n-th map range of the function (source order)
+		if len(x.Args) != 2 || x.Args[0].Op != "int" {
+			fail("usage: visited(<ordinal of the map range>, key)")
+		}
+		rs := e.g.mapRanges()
+		n := int(x.Args[0].Int.Int64())
+		if n < 0 || n >= len(rs) {
+			fail("visited(%d, ..): the function has %d map range loops", n, len(rs))
+		}
+		loc, have := e.g.mrSeen[rs[n]]
+		if !have {
+			fail("visited(%d, ..): that range has not been entered at this point", n)
+		}
+		m := rs[n].X.Type().Underlying().(*types.Map)
+		dk := e.g.seenKind(m)
+		kv := e.tr(x.Args[1])
+		kt := e.rv(kv).T
+		if seqLike(kv) {
+			kt = e.asSeq(kv)
+		}
+		return Val{T: "(select (select " + e.g.heap(e.cur, dk) + " " + loc + ") " + kt + ")", Sort: "Bool"}
 	case "mapcells":
 		// mapcells(m): the whole content of map m (a modifies item)
 		b := e.rv(e.tr(x.Args[0]))
